@@ -90,26 +90,16 @@ def judge(ctx, res, cases, upto):
 
 
 def validate(ctx, lines, cases, upto, jobs):
-    """V: group trace lines by variable configuration and let TLC validate them"""
-    fam_of = {}
-    for i, c in enumerate(cases[:upto]):
-        fam_of[i] = json.dumps(c["fam"], sort_keys=True)
-    groups = {}
-    for e in lines:
-        if e["t"] in fam_of:
-            groups.setdefault(fam_of[e["t"]], []).append(e)
-    total_ok = 0
-    for fk, ls in groups.items():
-        fam = json.loads(fk)
-        ok, rej = V.validate_parallel(ctx, "SessionVars_trace", "sv_trace.cfg", V.trace_cfg(fam), ls, jobs=jobs)
-        total_ok += ok
-        for rj in rej:
-            ev = rj["event"]
-            sig = "C20 trace: statement ran with settings other than requested on a session without refused SET" \
-                if ev.get("ev") == "exec" else "C20 trace rejected at %s" % ev.get("ev")
-            ctx.deviation(sig, "TLC rejects the recorded trace at event %d: %s" % (rj["index"], json.dumps(ev)[:400]),
-                          {"trace": rj["events"], "fam": fam, "case": cases[rj["trace"]] if rj["trace"] < len(cases) else None})
-    return total_ok
+    """V: let TLC validate the recorded traces (one configuration knows every name the generators use)"""
+    ls = [e for e in lines if e["t"] < upto]
+    ok, rej = V.validate_parallel(ctx, "SessionVars_trace", "sv_trace.cfg", V.trace_cfg(), ls, jobs=jobs)
+    for rj in rej:
+        ev = rj["event"]
+        sig = "C20 trace: statement ran with settings other than requested on a session without refused SET" \
+            if ev.get("ev") == "exec" else "C20 trace rejected at %s" % ev.get("ev")
+        ctx.deviation(sig, "TLC rejects the recorded trace at event %d: %s" % (rj["index"], json.dumps(ev)[:400]),
+                      {"trace": rj["events"], "case": cases[rj["trace"]] if rj["trace"] < len(cases) else None})
+    return ok
 
 
 def run(ctx):
@@ -133,7 +123,7 @@ def run(ctx):
             judge(ctx, res, [c], 1)
             validate(ctx, lines, [c], 1, 1)
         elif "trace" in c:
-            ok, rej = ctx.validate_traces("SessionVars_trace", "sv_trace.cfg", c["trace"], cfg_text=V.trace_cfg(c["fam"]))
+            ok, rej = ctx.validate_traces("SessionVars_trace", "sv_trace.cfg", c["trace"], cfg_text=V.trace_cfg())
             for rj in rej:
                 ctx.deviation(rec["signature"], "replayed trace rejected at event %d" % rj["index"], c)
         return
@@ -158,29 +148,37 @@ def run(ctx):
             ("proposed repair (C20-1.diff), refusals, 2 connections, transactions: unrestricted property",
              dict(base, nconns=2, sets=3, stmts=3, fails=["reject"], maxfails=2, tx=True, repaired=True), STRONG),
         ]
-    for label, p, inv in mcs:
-        r = ctx.tlc("SessionVars", "sv_mc.cfg", extra_files={"sv_mc.cfg": V.mc_cfg(p, inv)}, coverage=True, workers=jobs if not thorough else "auto",
+    # every TLC job of steps 1 and 2 is an independent JVM: they run side by side (quick: 2 workers each), and the
+    # Go test binary is built meanwhile
+    from concurrent.futures import ThreadPoolExecutor
+    pool = ThreadPoolExecutor(max_workers=6 if not thorough else 4)
+    warm = pool.submit(lambda: ctx.go_test(V.PKG, V.HARNESS, "^TestVerifC20NoSuchTest$", timeout=1800))
+
+    def mc_job(label, p, inv):
+        r = ctx.tlc("SessionVars", "sv_mc.cfg", extra_files={"sv_mc.cfg": V.mc_cfg(p, inv)}, coverage=True, workers=2 if not thorough else 4,
                     heap="4g", timeout=1500, label="exhaustive: " + label)
         ctx.log("mc", label, r.stats(), "%.1fs" % r.wall)
         zero = [a for a in r.zero_actions if not (a in ("Begin", "TxFirst", "TxStmt", "TxStmtEnd", "Commit") and not p.get("tx"))]
         if zero:
             ctx.notes.append("vacuous actions in '%s': %s" % (label, zero))
-    # the unrestricted property has a design-level counterexample when the backend refuses a SET: a candidate,
-    # decided only by the replay below
-    r = ctx.tlc("SessionVars", "sv_mc.cfg", extra_files={"sv_mc.cfg": V.mc_cfg(dict(base, sets=2, stmts=3, fails=["reject"], maxfails=1), STRONG)},
-                workers=jobs, heap="4g", timeout=600, allow_violation=True, label="candidate search: NoLeak with refusals")
-    ctx.cov["design_level_candidate"] = {"invariant": r.violated, "trace_states": r.trace_states}
-    if r.violated not in (None, "NoLeak"):
-        raise inconclusive("unexpected specification-level failure %s" % r.violated)
-    ctx.log("candidate search:", r.violated, "after", r.trace_states, "states")
+        return r
+
+    def cand_job():
+        # the unrestricted property has a design-level counterexample when the backend refuses a SET: a candidate,
+        # decided only by the replay below
+        return ctx.tlc("SessionVars", "sv_mc.cfg", extra_files={"sv_mc.cfg": V.mc_cfg(dict(base, sets=2, stmts=3, fails=["reject"], maxfails=1), STRONG)},
+                       workers=1, heap="2g", timeout=600, allow_violation=True, label="candidate search: NoLeak with refusals")
+
+    mc_futs = [pool.submit(mc_job, label, p, inv) for label, p, inv in mcs]
+    cand_fut = pool.submit(cand_job)
 
     # ---- 2. G: generate behaviours ------------------------------------------------------------------
     bfs = [dict(clients=2, nconns=1, sys=[TZ], user=[], cs=["d", "a"], vals=["a"], fails=["reject"], maxfails=1, len=4, need=2)]
     sims = [
         (dict(clients=2, nconns=2, sys=[TZ, SSL], user=["@u"], cs=["d", "a", "b"], usernull=True, fails=["reject"], maxfails=2, tx=True,
-              sets=6, len=14, need=2), 260),
+              sets=6, len=14, need=2), 200),
         (dict(clients=3, nconns=1, sys=[TZ], ext=[LWT], user=["@u"], cs=["d", "a", "b"], fails=["reject"], maxfails=2,
-              sets=5, len=12, need=2), 160),
+              sets=5, len=12, need=2), 120),
     ]
     if thorough:
         bfs = [dict(clients=2, nconns=1, sys=[TZ], user=["@u"], cs=["d", "a"], vals=["a"], fails=["reject"], maxfails=1, len=5, need=2),
@@ -199,23 +197,37 @@ def run(ctx):
     for k in vlib.known_replay_cases("C20"):
         cases.append(copy.deepcopy(k))
     nknown = len(cases)
-    for p in bfs:
+    def bfs_job(p):
         r = ctx.tlc("SessionVars_gen", "sv_gen.cfg", extra_files={"sv_gen.cfg": V.gen_cfg(p)}, workers=1, heap="4g", timeout=1500,
                     label="generate all behaviours of length %d" % p["len"])
         ctx.log("generated", len(r.cases), "behaviours of length", p["len"], "pool", p["nconns"])
-        cs = add_names(r.cases, p)
+        return add_names(r.cases, p)
+
+    def sim_job(p, num, seed):
+        r = ctx.tlc("SessionVars_gen", "sv_gen.cfg", extra_files={"sv_gen.cfg": V.gen_cfg(p)}, workers=1, heap="4g", mode="sim",
+                    sim="num=%d" % num, depth=p["len"] + 1, timeout=900, seed=seed, label="simulate length %d" % p["len"])
+        if not r.cases:
+            raise inconclusive("simulation produced no behaviours")
+        ctx.log("simulated", len(r.cases), "behaviours of length", p["len"], "clients", p["clients"], "pool", p["nconns"])
+        return add_names(r.cases, p)
+
+    gen_futs = [pool.submit(bfs_job, p) for p in bfs]
+    gen_futs += [pool.submit(sim_job, p, num, rng.randrange(1, 2 ** 31)) for p, num in sims]
+    for f in mc_futs:
+        f.result()
+    r = cand_fut.result()
+    ctx.cov["design_level_candidate"] = {"invariant": r.violated, "trace_states": r.trace_states}
+    if r.violated not in (None, "NoLeak"):
+        raise inconclusive("unexpected specification-level failure %s" % r.violated)
+    ctx.log("candidate search:", r.violated, "after", r.trace_states, "states")
+    for f in gen_futs:
+        cs = f.result()
         if len(cs) > 40000:
             rng.shuffle(cs)
             cs = cs[:40000]
         cases += cs
-    for p, num in sims:
-        r = ctx.tlc("SessionVars_gen", "sv_gen.cfg", extra_files={"sv_gen.cfg": V.gen_cfg(p)}, workers=1, heap="4g", mode="sim",
-                    sim="num=%d" % num, depth=p["len"] + 1, timeout=900, seed=rng.randrange(1, 2 ** 31),
-                    label="simulate length %d" % p["len"])
-        if not r.cases:
-            raise inconclusive("simulation produced no behaviours")
-        ctx.log("simulated", len(r.cases), "behaviours of length", p["len"], "clients", p["clients"], "pool", p["nconns"])
-        cases += add_names(r.cases, p)
+    warm.result()
+    pool.shutdown()
     ngen = len(cases)
 
     # binding self-test cases (appended, judged separately): one expectation corrupted each
@@ -266,7 +278,7 @@ def run(ctx):
                 break
 
     # V: quick validates a sample of the traces, thorough all of them
-    limit_lines = 4000 if not thorough else 50000
+    limit_lines = 3000 if not thorough else 50000
     keep, n = set(), 0
     order = list(range(ngen))
     rng.shuffle(order)
@@ -280,7 +292,7 @@ def run(ctx):
         keep.add(t)
         n += len(ls)
     vlines = [e for e in lines if e["t"] in keep]
-    ok = validate(ctx, vlines, allcases, ngen, jobs)
+    ok = validate(ctx, vlines, allcases, ngen, jobs if thorough else 2)
     ctx.cov["traces_validated_against_impl"] += ok
     ctx.cov["trace_lines_validated"] = len(vlines)
     ctx.log("TLC validated", ok, "recorded traces (", len(vlines), "events )")
@@ -298,7 +310,7 @@ def run(ctx):
                 break
         sub = vlib.Ctx(ctx.pid, ctx.tier, ctx.seed, replay="selftest")
         try:
-            okv, rej = sub.validate_traces("SessionVars_trace", "sv_trace.cfg", t2, cfg_text=V.trace_cfg(allcases[clean[0]]["fam"]), max_rejects=1)
+            okv, rej = sub.validate_traces("SessionVars_trace", "sv_trace.cfg", t2, cfg_text=V.trace_cfg(), max_rejects=1)
             caught_v = len(rej) > 0
         finally:
             sub.cleanup()
